@@ -36,6 +36,7 @@ type Config struct {
 	Params     map[string]int
 	Deadline   time.Time
 	Trace      bool
+	FuncStubs  map[string]string // function of the code under test -> harness function replacing it
 	PanicOK    bool // an uncaught panic is not a violation (harness handles it)
 }
 
